@@ -16,6 +16,7 @@ import (
 	"verif/harness/internal/c16"
 	"verif/harness/internal/c20"
 	"verif/harness/internal/callback"
+	"verif/harness/internal/logout"
 	"verif/harness/internal/sso"
 )
 
@@ -40,6 +41,8 @@ func main() {
 	switch prop {
 	case "C01", "C03", "C10":
 		err = callback.Run(prop, *out, *tier, *seed)
+	case "C13":
+		err = logout.Run(prop, *out, *tier, *seed)
 	case "C02", "C05", "C06", "C08":
 		err = sso.Run(prop, *out, *tier, *seed)
 	case "C16":
